@@ -561,6 +561,9 @@ Eval(ln, w) ==
       [] ln.op = "Read" -> EvRead(ln, w)
       [] ln.op \in {"ResAdd", "ResRemove"} -> EvRes(ln, w)
       [] ln.op = "GC" -> Res(w, <<>>, {})
+      [] ln.op = "GCCheck" ->
+            Res(w, << Chk("C14", "gc-checkpoint-ran", ~ln.res.panic),
+                      Chk("C14", "unreferenced-payloads-released", ln.res.panic \/ ln.gc.leaked = <<>>) >>, {})
 
 ---------------------------------------------------------------------------
 (* The trace specification *)
